@@ -145,8 +145,27 @@ def run(ctx) -> None:
     okwalk, wkloc = walk_builds_paths_from_root(P)
     ctx.check(okwalk, RP, "DirectorySnapshot.walk builds paths from the root as given", "snapshot paths are not all join(root, entry.name) over the entries of listdir(root)", wkloc)
     pe = P.cls("PollingEmitter")
-    init_src = ast.unparse(pe.methods["__init__"].node)
-    ctx.check(re.search(r"DirectorySnapshot\(\s*self\.watch\.path", init_src) is not None, RP, "PollingEmitter snapshots watch.path as given", "the polling snapshot is not taken of self.watch.path as given", pe.loc)
+    # every snapshot the emitter takes (in __init__'s lambda, in a method, wherever) is of the watch's path exactly as it was given
+    snaps, first = [], []
+    for fn in [n for n in ast.walk(pe.node) if isinstance(n, (ast.FunctionDef, ast.Lambda))]:
+        own = [n for n in ast.walk(fn) if isinstance(n, ast.Call) and (dotted(n.func) or "").split(".")[-1] == "DirectorySnapshot"]
+        if not own or (isinstance(fn, ast.FunctionDef) and any(isinstance(x, ast.Lambda) and any(c in list(ast.walk(x)) for c in own) for x in ast.walk(fn))):
+            continue  # (a call inside a lambda is judged with the lambda)
+        # locals bound once in this function to a plain attribute chain read as that chain (`watch = self.watch`)
+        once: dict[str, list] = {}
+        for a in ast.walk(fn):
+            if isinstance(a, ast.Assign) and len(a.targets) == 1 and isinstance(a.targets[0], ast.Name):
+                once.setdefault(a.targets[0].id, []).append(a.value)
+        alias = {k: ast.unparse(v[0]) for k, v in once.items() if len(v) == 1 and dotted(v[0])}
+        for n in own:
+            a0 = n.args[0] if n.args else next((k.value for k in n.keywords if k.arg == "path"), None)
+            t = ast.unparse(a0) if a0 is not None else ""
+            head = t.split(".")[0]
+            if head in alias:
+                t = alias[head] + t[len(head):]
+            snaps.append(n)
+            first.append(t)
+    ctx.check(bool(snaps) and all(f in ("self.watch.path", "self._watch.path") for f in first), RP, "PollingEmitter snapshots watch.path as given", "the polling snapshot is not taken of self.watch.path as given", pe.loc)
     qe = ast.unparse(pe.methods["queue_events"].node)
     ctx.check("DirDeletedEvent(self.watch.path)" in qe, RP, "PollingEmitter root event carries watch.path", "the root-gone event does not carry self.watch.path itself", pe.loc)
     # polling events carry diff paths unchanged
